@@ -25,7 +25,7 @@
 From Coq Require Import List ZArith NArith Bool.
 From TskVerif Require Import Base.Common Gen.Generated C20.Model C20.Spec C20.HartiganProofs C20.TopProofs
   C20.BoundProofs C20.StackProofs C20.FixProofs C20.ArrayProofs C20.EndToEnd C20.CurrentProofs
-  C20.PyProofs C20.Refuted C20.Examples.
+  C20.PyProofs C20.ErrProofs C20.TreeInv C20.Final C20.Refuted C20.Examples.
 Import ListNotations.
 
 (* (a) Hartigan's invariant for the sets the code computes — every tree (polytomies, unary
@@ -257,6 +257,97 @@ Theorem guarded_only_rejects :
   (c20_rejects_unvisited_samples = false -> guarded core ta g anc = core ta g anc) /\
   (all_samples_visited ta = Ok true -> guarded core ta g anc = core ta g anc).
 Proof. exact guarded_only_rejects_lemma. Qed.
+
+(* ---- the bridge: tskit trees by their representation invariant ---- *)
+(* [tree_inv ta K h] (C20/TreeInv.v), in the style of C01's links_consistent: for every node p and
+   the virtual root, left_child[p], right_sib, ... walks K p and right_child[p], left_sib, ... walks
+   it backwards; K p = the nodes whose parent is p; the virtual root's children are parentless;
+   a rank h (the node time) grows from child to parent; samples = the flagged nodes, once each.
+   From it: the rose tree exists, [rose_of_arrays] computes it within its fuel, and the
+   executable input check [arrays_okb] assumed by the L2 theorems holds. *)
+Theorem tree_inv_arrays_ok : forall (ta : tree_arrays) (K : Z -> list Z) (h : Z -> nat) (g : list Z),
+  tree_inv ta K h -> length g = length (ta_samples ta) ->
+  exists roots, rose_of_arrays ta g = Ok roots /\ arrays_okb ta roots = true /\
+                map tid roots = K (zlen (ta_flags ta)).
+Proof. exact tree_inv_arrays_ok_lemma. Qed.
+
+(* THE PROPERTY for the array function on every tskit tree (any root_threshold): hypotheses are
+   the representation invariant and valid arguments only.  "Reproduces" is stated per sample:
+   every sample that is a node of the forest under the virtual root and has a non-missing
+   observation is painted with its observed state.  For root_threshold = 1 every sample is such a
+   node; for root_threshold > 1 this is exactly what the code guarantees (finding F14): the
+   statement is about the samples under some root, and minimality is among labelings of that
+   forest. *)
+Theorem c_map_mutations_on_trees :
+  forall (ta : tree_arrays) (K : Z -> list Z) (h : Z -> nat) (g : list Z) (anc : option Z),
+  tree_inv ta K h ->
+  length g = length (ta_samples ta) ->
+  Forall (fun x => (-1 <= x < c20_hartigan_max_alleles)%Z) g -> (exists x, In x g /\ x <> (-1)%Z) ->
+  match anc with Some a => (0 <= a < c20_hartigan_max_alleles)%Z | None => True end ->
+  exists roots a tr,
+    rose_of_arrays ta g = Ok roots /\ map tid roots = K (zlen (ta_flags ta)) /\
+    c_map_mutations ta g anc = Ok (Z.of_N a, tr) /\
+    match anc with Some x => Z.of_N a = x | None => True end /\
+    (forall j s gj, nth_error (ta_samples ta) j = Some s -> nth_error g j = Some gj -> gj <> (-1)%Z ->
+       In s (forest_ids roots) ->
+       label_in s roots (map (fun r => paint tr r a) roots) = Some (Z.to_N gj)) /\
+    parents_before tr 0 = true /\ forallb (fun r => parents_ok tr r (-1)) roots = true /\
+    nodupb (map tr_node tr) = true /\
+    forallb (unary_ok false tr) roots = true /\
+    (length tr <= forest_num_obs roots)%nat /\
+    (forall a' ls, match anc with Some x => a' = Z.to_N x | None => True end ->
+        consistent_list roots ls = true -> (length tr <= forest_changes a' ls)%nat) /\
+    (exists ls, consistent_list roots ls = true /\ forest_changes a ls = length tr).
+Proof. exact c_map_mutations_on_trees_lemma. Qed.
+
+(* ... and the boundary is exact (F14, still open): a tree with root_threshold = 2 (nodes 0,1
+   under 3; sample 2 isolated) satisfying the input check, on which the function returns (0, [])
+   although sample 2 — not a node of the forest, parentless, no transition on it — is observed in
+   state 1: the nearest-mutation rule paints it with the ancestral state 0.
+   ([f14_tree_inv] in C20/Final.v: these arrays satisfy [tree_inv].) *)
+Theorem c_map_mutations_unvisited_sample_refuted :
+  exists roots,
+    rose_of_arrays f14_arrays [0; 0; 1]%Z = Ok roots /\ arrays_okb f14_arrays roots = true /\
+    c_map_mutations f14_arrays [0; 0; 1]%Z None = Ok (0%Z, []) /\
+    nth_error (ta_samples f14_arrays) 2 = Some 2%Z /\ nth_error [0; 0; 1]%Z 2 = Some 1%Z /\
+    existsb (Z.eqb 2) (forest_ids roots) = false /\
+    get (ta_parent f14_arrays) 2%Z = Ok (-1)%Z.
+Proof. exact f14_boundary_witness. Qed.
+
+(* ---- which inputs are rejected, and how ---- *)
+(* the wrapper's decision sequence, one clause per exception class and stage *)
+Theorem py_exception_classes :
+  forall (core : tree_arrays -> list Z -> option Z -> res (Z * list trans))
+         (ta : tree_arrays) (g : list Z) (anc : anc_arg) (alleles : list Z),
+  let r := py_map_mutations core ta g anc alleles in
+  (Exists (fun x => ~ int8_ok x) g -> r = MErr EOverflow) /\
+  (Forall int8_ok g ->
+     (g = [] -> r = MErr EValue) /\
+     forall g0 gs, g = g0 :: gs ->
+       (forall c, resolve_anc anc alleles = Err c -> r = MErr EValue) /\
+       forall a0, resolve_anc anc alleles = Ok a0 ->
+         ((max_with a0 g0 gs >= c20_py_max_alleles)%Z -> r = MErr EValue) /\
+         ((max_with a0 g0 gs < c20_py_max_alleles)%Z ->
+            (zlen g <> zlen (ta_samples ta) -> r = MErr EValue) /\
+            (zlen g = zlen (ta_samples ta) ->
+               (forall c, core ta g a0 = Err c -> r = MErr ELibrary) /\
+               (forall a tr, core ta g a0 = Ok (a, tr) ->
+                  (translate alleles a tr = None -> r = MErr EIndex) /\
+                  (forall sa muts, translate alleles a tr = Some (sa, muts) -> r = MOk sa muts))))).
+Proof. exact py_exception_classes_lemma. Qed.
+
+(* the entry checks of the C function (LibraryError through the wrapper): a genotype >= 64 or
+   < -1; all genotypes missing; a fixed ancestral state outside [0, 64) *)
+Theorem c_entry_checks : forall (fx : bool) (ta : tree_arrays) (g : list Z) (anc : option Z),
+  length g = length (ta_samples ta) -> samples_in_range ta ->
+  (Exists (fun x => (x >= c20_hartigan_max_alleles \/ x < c20_tsk_missing_data)%Z) g ->
+     c_map_mutations_gen fx ta g anc = Err ERR_BAD_GENOTYPE) /\
+  (Forall (fun x => x = c20_tsk_missing_data) g ->
+     c_map_mutations_gen fx ta g anc = Err ERR_GENOTYPES_ALL_MISSING) /\
+  (Forall (fun x => (-1 <= x < c20_hartigan_max_alleles)%Z) g -> (exists x, In x g /\ x <> (-1)%Z) ->
+     forall a, anc = Some a -> (a < 0 \/ a >= c20_hartigan_max_alleles)%Z ->
+     c_map_mutations_gen fx ta g anc = Err ERR_BAD_ANCESTRAL_STATE).
+Proof. exact c_entry_checks_lemma. Qed.
 
 (* ---- historical record: the PINNED (pre-fix) variant [mm_rose] on the original tree ---- *)
 (* optimal only when no internal sample has a missing genotype ... *)
